@@ -2000,6 +2000,10 @@ def jobs(tier, seed):
     out.append(dict(engine='thresha', fields=['GF(7)', 'GF(8)'], tier=tier, seed=seed))
     order = {'mp': 0, 'sp': 1}
     out.sort(key=lambda j: (order.get(j['engine'], 2), -j.get('parts', 1)))
+    # array coroutines under the controlled scheduler (mc/programs.py NP_PROGRAMS): default schedules, thorough adds one deviation
+    from mc import sched, programs
+    for j in sched.plan('C37', tier, seed, programs=sorted(programs.NP_PROGRAMS)):
+        out.append(dict(j, engine='race'))
     return out
 
 
@@ -2007,6 +2011,9 @@ def run_job(job):
     import time
     t0 = time.time()
     e = job['engine']
+    if e == 'race':
+        from mc import sched
+        return sched.run_job(job)
     fn = {'sp': run_sp, 'mp': run_mp, 'iszero': run_iszero, 'ffa': run_ffa}.get(e, run_thresha)
     part = fn(job)
     name = f"{e}/{job.get('dt') or ','.join(job.get('fields', []))}/{'+'.join(job.get('groups', []))}/{job.get('part', 0)}of{job.get('parts', 1)}" \
@@ -2023,6 +2030,9 @@ def coverage_extra(tier, seed, total):
 
 def replay(case):
     e = case.get('engine')
+    if 'job' in case and case['job'].get('engine') == 'race':
+        from mc import sched
+        return sched.replay(case)
     if e == 'sp':
         part = Part()
         ctx = Ctx(case['dt'], case['k'], case.get('prss', False), 'quick', case['seed'])
